@@ -87,6 +87,8 @@ def step (s : St) (line : String) : St × String :=
       (s', showWrite r)
     | _, _, _, _ => (s, "bad-op")
   | ["snap"] => (s, "ok")
+  | ["snaphold"] => (s, "ok")
+  | ["snaprelease"] => (s, "ok")
   | "compact" :: _ => (s, "ok")
   | ["reopen"] => (s, "ok")
   | [op, meas, pred, tmin, tmax] =>
